@@ -479,7 +479,7 @@ def trivialCode : RS :=
 
 theorem trivialCode_laws : RSLaws trivialCode 1 0 where
   parity_length := by intro d _; rfl
-  parity_size := by intro d s _ x hx; simp [trivialCode] at hx
+  parity_size := by intro d s _ _ x hx; simp [trivialCode] at hx
   recover_complete := by
     intro d S s hd _ _ hsub hpres
     match d, hd with
@@ -504,4 +504,146 @@ theorem trivialCode_laws : RSLaws trivialCode 1 0 where
     split at h
     · simp [present]
     · cases h
+
+theorem nodup_getElem_inj {l : List Bytes} (h : l.Nodup) (i j : Nat) (hi : i < l.length) (hj : j < l.length)
+    (e : l[i] = l[j]) : i = j := by
+  rw [List.nodup_iff_pairwise_ne, List.pairwise_iff_getElem] at h
+  rcases Nat.lt_trichotomy i j with hlt | heq | hgt
+  · exact absurd e (h i j hi hj hlt)
+  · exact heq
+  · exact absurd e.symm (h j i hj hi hgt)
+
+/-- The shard ↔ peer assignment for a publisher in a duplicate-free committee of `total + 1`
+peers: every shard index in range has a designated broadcaster, who is a committee member other
+than the publisher, and different indices have different broadcasters (so a Byzantine peer can get
+at most its own index past the origin check). -/
+theorem peerForShard_spec (s : Sched) (hnd : s.peers.Nodup) (hlen : s.peers.length = s.total + 1)
+    (pub : Bytes) (hp : pub ∈ s.peers) :
+    (∀ i, i < s.total → ∃ q, s.peerForShard pub i = .ok q ∧ q ∈ s.peers ∧ q ≠ pub) ∧
+    (∀ i j q, s.peerForShard pub i = .ok q → s.peerForShard pub j = .ok q → i = j) := by
+  have hsome : ∃ pi, s.peers.idxOf? pub = some pi := by
+    cases h : s.peers.idxOf? pub with
+    | none => rw [List.idxOf?_eq_none_iff] at h; exact absurd hp h
+    | some pi => exact ⟨pi, rfl⟩
+  obtain ⟨pi, hpi⟩ := hsome
+  obtain ⟨hpilt, hpiget, _⟩ := List.idxOf?_eq_some_iff.mp hpi
+  have key : ∀ i (hi : i < s.total),
+      s.peerForShard pub i = .ok (s.peers[if i ≥ pi then i + 1 else i]'(by split <;> omega)) := by
+    intro i hi
+    unfold Sched.peerForShard
+    have : ¬ i ≥ s.total := by omega
+    simp only [this, if_false, hpi]
+    congr 1
+    rw [List.getD_eq_getElem?_getD, List.getElem?_eq_getElem (by split <;> omega)]
+    rfl
+  have range : ∀ i q, s.peerForShard pub i = .ok q → i < s.total := by
+    intro i q h
+    unfold Sched.peerForShard at h
+    by_cases hge : i ≥ s.total
+    · simp [hge] at h
+    · omega
+  refine ⟨?_, ?_⟩
+  · intro i hi
+    refine ⟨_, key i hi, List.getElem_mem _, ?_⟩
+    intro e
+    rw [← hpiget] at e
+    have := nodup_getElem_inj hnd _ _ (by split <;> omega) hpilt e
+    split at this <;> omega
+  · intro i j q hi hj
+    have hi' := range i q hi
+    have hj' := range j q hj
+    rw [key i hi'] at hi
+    rw [key j hj'] at hj
+    injection hi with hi
+    injection hj with hj
+    have := nodup_getElem_inj hnd _ _ (by split <;> omega) (by split <;> omega) (hi.trans hj.symm)
+    split at this <;> split at this <;> omega
+
+theorem flatten_length_const (s : Nat) : ∀ l : List Bytes, (∀ x ∈ l, x.length = s) →
+    l.flatten.length = l.length * s
+  | [], _ => by simp
+  | a :: l, h => by
+    have := flatten_length_const s l (fun x hx => h x (by simp [hx]))
+    simp only [List.flatten_cons, List.length_append, this, h a (by simp), List.length_cons]
+    rw [Nat.add_mul]; omega
+
+/-- `GoSized` holds for every message below 2^50 bytes (a petabyte) in every configuration the
+GF(2^8) codec accepts. -/
+theorem goSized_of_small (rs : RS) (msg : Bytes) (k p : Nat) (hl : RSLaws rs k p) (hin : PadInput msg k)
+    (hok : rsNewOk k p = true) (hsmall : msg.length < 2 ^ 50) : GoSized rs msg k p := by
+  obtain ⟨s, hs, hlen, hsize, hdlen, hdsize, hflat⟩ := encOf_spec rs msg k p hl hin
+  obtain ⟨z, hp, _, hz⟩ := pad_facts msg k hin
+  have hv := putUvarint_length_le_ten (UInt64.ofNat msg.length)
+  have hkp : k + p ≤ 256 := by
+    simp only [rsNewOk, Bool.and_eq_true, decide_eq_true_eq] at hok; exact hok.2
+  have hpadlen : (pad msg k).length ≤ msg.length + 10 + 2 * k := by
+    rw [hp]; simp only [List.length_append, List.length_replicate]; omega
+  -- the data shards together are the padded message
+  have hd := flatten_length_const s _ hdsize
+  have hdflat : (splitData (pad msg k) k p).flatten = pad msg k := by
+    have hdvd : k ∣ (pad msg k).length := by
+      obtain ⟨q, hq⟩ := pad_length_dvd msg k hin
+      exact ⟨2 * q, by rw [hq]; simp [Nat.mul_comm, Nat.mul_left_comm]⟩
+    have hne : pad msg k ≠ [] := by
+      intro h; have := pad_ne_nil msg k; rw [h] at this; simp at this
+    exact (splitData_spec (pad msg k) k p hin.1 hdvd hne).2.2.1
+  rw [hdflat, hdlen] at hd
+  have hall := flatten_length_const s _ hsize
+  unfold GoSized
+  rw [hall, hlen]
+  -- s ≤ k * s = padded length
+  have hk := hin.1
+  have hs_le : s ≤ (pad msg k).length := by
+    rw [hd]; exact Nat.le_mul_of_pos_left s hk
+  have h1 : (k + p) * s ≤ 256 * s := Nat.mul_le_mul_right s hkp
+  have h2 : s ≤ 2 ^ 50 + 10 + 512 := by omega
+  have h3 : 256 * s ≤ 256 * (2 ^ 50 + 10 + 512) := Nat.mul_le_mul_left 256 h2
+  omega
+
+/-- The repetition code for `(k, p) = (1, 1)` (a committee of three peers: what klauspost computes
+for one data shard). Used to instantiate the defect theorem with a selection that lacks shard 0. -/
+def repCode11 : RS :=
+  { parity := fun _ _ d => [d.headD []],
+    recover := fun _ _ S => match S with
+      | [some x, _] => some [x, x]
+      | [none, some y] => some [y, y]
+      | _ => none }
+
+theorem repCode11_laws : RSLaws repCode11 1 1 where
+  parity_length := by intro d _; rfl
+  parity_size := by
+    intro d s hd hs x hx
+    match d, hd with
+    | [a], _ =>
+      simp only [repCode11, List.headD_cons, List.mem_singleton] at hx
+      rw [hx]; exact hs a (by simp)
+  recover_complete := by
+    intro d S s hd _ _ hsub hpres
+    match d, hd with
+    | [x], _ =>
+      simp only [repCode11, List.headD_cons, List.singleton_append] at hsub ⊢
+      match S, hsub with
+      | [a, b], h =>
+        simp only [SubOf] at h
+        obtain ⟨ha, hb, _⟩ := h
+        rcases ha with rfl | rfl
+        · rcases hb with rfl | rfl
+          · simp [present] at hpres
+          · rfl
+        · rfl
+  recover_length := by
+    intro S c h
+    simp only [repCode11] at h
+    split at h
+    · injection h with h; subst h; rfl
+    · injection h with h; subst h; rfl
+    · cases h
+  recover_threshold := by
+    intro S c h
+    simp only [repCode11] at h
+    split at h
+    · simp [present, List.countP_cons]
+    · simp [present, List.countP_cons]
+    · cases h
+
 end Juno.C19
